@@ -10,6 +10,9 @@
 #include <string>
 #include <unordered_map>
 #include <set>
+#ifdef ORATIO_VERIF
+#include <functional>
+#endif
 #ifdef VERBOSE_LOG
 #include <iostream>
 
@@ -95,6 +98,15 @@ namespace smt
     inline size_t decision_level() const noexcept { return trail_lim.size(); }              // returns the current decision level..
     inline bool root_level() const noexcept { return trail_lim.empty(); }                   // checks whether the current decision level is root level..
     SMT_EXPORT const std::vector<lit> &get_decisions() const noexcept { return decisions; } // returns the decisions taken so far in chronological order..
+
+#ifdef ORATIO_VERIF
+  public:
+    // verification hook: called with every clause given to new_clause (kind 4) and record (kind 0: learnt from a conflict,
+    // 1: no-good of next(), 2: theory lemma, 5: clause recorded by the planner) and with every theory conflict (kind 3)..
+    std::function<void(int, const std::vector<lit> &)> verif_hook;
+    int verif_kind = 0;
+    bool verif_in_backtrack = false;
+#endif
 
   private:
     void analyze(constr &cnfl, std::vector<lit> &out_learnt, size_t &out_btlevel) noexcept;
